@@ -105,6 +105,9 @@ func (g *Gen) genFunc(fs *FuncSpec) {
 	env0 := &Env{g: g, st: st0, old: st0, vars: vars, pc: "true", hyp: true}
 	var reqs []string
 	for _, c := range req {
+		if !g.wantClause(c) {
+			continue // a precondition that belongs to another property is not assumed here
+		}
 		h := env0.tr(c.E, true)
 		env0.want(h, "Bool", c.E)
 		reqs = append(reqs, h.S)
@@ -286,7 +289,9 @@ func (f *frame) ghostStmt(gs *GhostStmt, env *Env, st *State, pc, name string, p
 }
 
 func (g *Gen) wantClause(c *Clause) bool {
-	if g.wantProp == "" || len(c.Props) == 0 {
+	if g.wantProp == "" || len(c.Props) == 0 || g.wantProp == "C06" {
+		// (C06 is the panic-freedom view of every function under contract: it is taken under all
+		// of a function's preconditions, whichever property they were written for)
 		return true
 	}
 	for _, p := range c.Props {
@@ -481,6 +486,9 @@ func (f *frame) loopHeader(li *loopInfo, pc string, st *State) string {
 	if li.spec != nil {
 		env := f.invEnv(st, pc, false, li)
 		for k, c := range li.spec.Invs {
+			if !g.wantClause(c) {
+				continue
+			}
 			goal := env.tr(c.E, true)
 			env.want(goal, "Bool", c.E)
 			f.oblig("inv.establish", fmt.Sprintf("%s#loop%d.inv.%s.establish", key, li.ord, clauseLabel(c, k)), pc, goal.S, "invariant "+c.Text, li.head.Instrs[0].Pos(), c.Props)
@@ -586,6 +594,9 @@ func (f *frame) loopHeader(li *loopInfo, pc string, st *State) string {
 	if li.spec != nil {
 		env := f.invEnv(st, pc, true, li)
 		for _, c := range li.spec.Invs {
+			if !g.wantClause(c) {
+				continue
+			}
 			h := env.tr(c.E, true)
 			hyps = append(hyps, h.S)
 		}
@@ -653,6 +664,9 @@ func (f *frame) backEdge(from, to *ssa.BasicBlock, pc string, st *State) {
 		}
 		env := f.invEnv(st, pc, false, li)
 		for k, c := range li.spec.Invs {
+			if !g.wantClause(c) {
+				continue
+			}
 			goal := env.tr(c.E, true)
 			env.want(goal, "Bool", c.E)
 			f.oblig("inv.preserve", fmt.Sprintf("%s#loop%d.inv.%s.preserve.%d", key, li.ord, clauseLabel(c, k), n), pc, goal.S, "invariant "+c.Text, from.Instrs[len(from.Instrs)-1].Pos(), c.Props)
